@@ -15,7 +15,11 @@ PROPERTY = Property(
     'C13', 'SEARCH returns exactly the matching messages',
     contracts=S.CONTRACTS, registry=S.REG,
     bounded=[Bounded('SEARCH programs vs. an independent RFC 3501 evaluator (real server)',
-                     '5 crafted messages (flags, sizes, internal and sent dates, From/To/Cc/Bcc/Subject/X-Test, bodies); '
+                     '7 crafted messages (flags, sizes, internal and sent dates incl. two within a zone offset of midnight, '
+                     'From/To/Cc/Bcc/Subject/X-Test, bodies) and 6 (thorough 80) seeded randomly generated mailboxes of 3-8 '
+                     'messages (random flags, sizes around the thresholds, dates around the searched days at any time of day in '
+                     'seven zones, header/body text from pools): on each random mailbox every leaf key, its negation and 120 '
+                     '(400) composite programs; on the crafted mailbox: '
                      'all 95 leaf keys (every flag key, NEW/OLD/RECENT, KEYWORD, BEFORE/ON/SINCE and SENT* x 3 dates, '
                      'FROM/TO/CC/BCC/SUBJECT/BODY/TEXT/HEADER x 5 strings, SMALLER/LARGER, 4 sequence sets, 3 UID sets) and '
                      'their negations; 1500 (quick) / 12000 (thorough) seeded composite programs (AND, OR, NOT OR, groups, K '
